@@ -11,6 +11,7 @@ ShowArgs == <<PrintS(<<Mem(V("$ARG"), "count", <<>>)>>), Forall("A", V("$ARG"), 
 Returns == << <<>>, <<Return(I(42))>>, <<Return(D(5))>>, <<Return(Str("text"))>>, <<Return(B(TRUE))>>, <<Return(NullC)>>, <<Return(Call("int", <<>>))>>,
               <<Return(NoExpr)>>, <<Return(Call("tab", <<I(1), I(1)>>))>>, <<Return(Bin("+", I(40), I(2))), P1("never")>>,
               \* texts that must be printed as they are (no interpretation of % or backslash by the command)
+              <<Return(Call("tup", <<I(1), Str("a b"), D(5), B(TRUE), Call("int", <<>>), Call("raw", <<I(2), I(65)>>)>>))>>, <<PrintS(<<Call("tup", <<I(7), Str("x")>>)>>), Return(Call("tup", <<B(FALSE)>>))>>,
               <<Return(Str("100%% sure %d %s"))>>, <<Return(Str("a%b%"))>>, <<PrintS(<<Str("50%% off %s")>>), Return(Str("%5d|%-3s|%x"))>> >>
 Fails == << <<Let("X", Bin("/", I(1), I(0)))>>, <<RaiseS("MYERR")>>, <<Let("X", Mem(Call("tab", <<I(1), I(1)>>), "at", <<I(9)>>))>>,
             <<Begin(<<RaiseS("E1")>>, <<When("E2", <<P1("no")>>)>>)>>, <<For("I", I(1), I(3), NoExpr, "auto", <<PutS(<<V("I")>>), If(Bin("==", V("I"), I(2)), <<RaiseS("OUT_OF_RANGE")>>, <<>>)>>)>> >>
@@ -28,7 +29,8 @@ ArgVecs == << <<>>, <<"a">>, <<"a", "b c", "q\"uote", "", "-x", "--out=zz", "12"
 BadTexts == {"X = ;", "print (1;", "for I in 1 to loop print I; end loop;", "X = 1;\nY = 2;\nif X then\nprint 1;\n", "print \"open;", "X = 1 +* 2;", "function F( return 1;", "begin print 1; end"}
 
 \* interactive: several statements, some fail, the others still run; returns print their value
-Inter == { <<Let("X", I(5)), PrintS(<<V("X")>>), PrintS(<<Bin("/", I(1), I(0))>>), P1("after"), Return(I(7)), P1("more"), For("I", I(1), I(2), NoExpr, "auto", <<PrintS(<<V("I")>>)>>), RaiseS("ZZ"), Return(Str("s")), Return(NullC)>>,
+Inter == { <<Let("X", I(5)), PrintS(<<V("X")>>), PrintS(<<Bin("/", I(1), I(0))>>), P1("after"), Return(I(7)), P1("more"), For("I", I(1), I(2), NoExpr, "auto", <<PrintS(<<V("I")>>)>>), RaiseS("ZZ"), Return(Str("s")), Return(NullC),
+             Return(Call("tup", <<I(1), Str("a b"), D(5)>>)), Return(Call("tab", <<I(2), I(1)>>)), Return(Call("tab", <<I(0), Str("s")>>)), P1("end")>>,
            <<Func("SQ", <<"X">>, <<Return(Bin("*", V("X"), V("X")))>>), PrintS(<<UCall("SQ", <<I(3)>>)>>), Let("Y", Mem(Call("tab", <<I(1), I(1)>>), "at", <<I(9)>>)), PrintS(<<Str("y")>>)>>,
            ShowArgs \o <<Return(B(FALSE))>> }
 
